@@ -78,7 +78,8 @@ def run(ck, prog, ctx):
     if ck.anchor("TABLE", "Arena::len", ln, private=True):
         subs = [s for _, s in ln.stmts() if s.k == "assign" and s.rv["k"] == "bin" and s.rv["op"].startswith("Sub")]
         vals = [s.rv["r"].int_value() for s in subs]
-        consts["len/sub"] = vals[0] if len(vals) == 1 else (0 if not vals else tuple(vals))
+        # no subtraction: `self.values().len()` leaves out what the accessor it is built on leaves out
+        consts["len/sub"] = vals[0] if len(vals) == 1 else (arena_placeholder_skips(prog, "len") if not vals else tuple(vals))
     for name in ("values", "values_mut", "keys", "iter"):
         if arena_fn(prog, name) is None:
             ck.undecided("TABLE", "range/" + name, "Arena::%s not present (private helper)" % name)
